@@ -100,6 +100,13 @@ func (m *mixedSpace) Ops(w *World) []Op {
 				ops = append(ops, Op{K: "set", C: c.Serial, I: uint64(i), V: classes[0]})
 				ops = append(ops, Op{K: "remove", C: c.Serial, I: uint64(i)})
 			}
+			if c.Parent != nil && n > 0 {
+				// a nested child overwrites an element with a value too large to inline (the child allocates a slab)
+				ops = append(ops, Op{K: "set", C: c.Serial, I: 0, V: "limA+"})
+			}
+		}
+		if c.Parent != nil && c.TypeID == 7 {
+			ops = append(ops, Op{K: "settype", C: c.Serial, N: 107})
 		}
 		if n > 0 && c.Parent == nil {
 			ops = append(ops, Op{K: "pop", C: c.Serial})
